@@ -213,6 +213,14 @@ SearchOKUnder(S, key, q, k, res) ==
     SearchOKWith(key, q, k, res, "KF_C29_AppendOnlyEntries" \in S, "KF_C29_DeletedStillIndexed" \in S,
                  "KF_C29_MetricIgnored" \in S)
 
+\* under S, some correct physical answer names a node that does not exist (the Cypher procedure
+\* then fails to materialise the row): a dead entry of a non-live id can reach the first k places
+MayNameMissingNode(S, key, q, k) ==
+    LET items == Items(key, "KF_C29_AppendOnlyEntries" \in S, "KF_C29_DeletedStillIndexed" \in S)
+        metric == IF "KF_C29_MetricIgnored" \in S THEN "cosine" ELSE idx[key]
+    IN  \E e \in items : /\ e.id \notin Live
+                          /\ Cardinality({f \in items : Less(metric, q, f.v, e.v)}) < Min2(k, Cardinality(items))
+
 TypeOK ==
     /\ DOMAIN ent = DOMAIN idx
     /\ \A key \in DOMAIN idx : idx[key] \in Metrics
